@@ -649,6 +649,16 @@ class Interp:
             return {"&": l and r, "|": l or r, "^": l != r}[op]
         if op in ("+", "-", "*") and isinstance(l, int) and isinstance(r, int) and not isinstance(l, bool):
             v = {"+": l + r, "-": l - r, "*": l * r}[op]
+            ty = (self.C.S(n.get("ty")) or "") if isinstance(n, dict) else ""
+            if ty in self.INT_BITS:
+                # checked arithmetic of the profile the suite runs in: a result outside the operand type panics
+                bits, signed = self.INT_BITS[ty]
+                lo, hi = (-(1 << (bits - 1)), (1 << (bits - 1)) - 1) if signed else (0, (1 << bits) - 1)
+                if v > hi:
+                    raise PanicReached("arithmetic overflow (%s %s %s in %s)" % (l, op, r, ty))
+                if v < lo:
+                    raise PanicReached("arithmetic underflow (%s %s %s in %s)" % (l, op, r, ty))
+                return v
             if v < 0:
                 raise PanicReached("arithmetic underflow")
             return v
